@@ -57,6 +57,18 @@ func corpus(w *lib.Writer) {
 		Step{Op: "append", How: "go.Append", V: vp(I(9))}, set("lua.index", I(2), tv.Nil()), Step{Op: "len", How: "L.ObjLen"},
 		Step{Op: "ipairs"}, Step{Op: "insert", How: "go.Insert", I: 2, V: vp(I(7))}, Step{Op: "remove", How: "go.Remove", I: 1},
 		Step{Op: "remove", How: "go.Remove", I: 9}, Step{Op: "insert", How: "lua.insert", I: 0, V: vp(S("zero"))})
+	// hunt C09 obs-1 (fixed 2ba8ccb): table.remove(t) during pairs must not hide the first hash key
+	add("corpus", defaultMai, "lua",
+		set("lua.index", I(1), I(10)), set("lua.index", I(2), I(20)), set("lua.index", I(3), I(30)), set("lua.field", S("x"), I(1)), set("lua.field", S("y"), I(2)),
+		Step{Op: "trav", How: "lua.next", Upd: [][]tv.KV{{}, {}, {{K: tv.V{T: "remove"}, V: I(3)}}}})
+	add("corpus", defaultMai, "NewTable",
+		set("go.RawSet", I(1), I(1)), set("go.RawSet", I(2), I(2)), set("go.RawSet", I(3), I(3)), set("go.RawSet", I(4), I(4)), set("go.RawSet", S("h"), I(5)),
+		Step{Op: "trav", How: "go.Next", Upd: [][]tv.KV{{{K: tv.V{T: "remove"}, V: I(1)}}, {{K: tv.V{T: "remove"}, V: I(3)}}, {{K: tv.V{T: "remove"}, V: I(2)}}}})
+	// hunt C09 obs-2 (fixed cc364f6): ForEach whose callback removes an element
+	runCase(w, &Input{Mai: defaultMai, New: "NewTable", Steps: []Step{set("go.RawSet", I(1), I(1)), set("go.RawSet", I(2), I(2)), set("go.RawSet", I(3), I(3)),
+		set("go.RawSet", I(4), I(4)), set("go.RawSet", I(5), I(5)), {Op: "dumprm", How: "middle", I: 2}}}, "corpus", nil, nil)
+	runCase(w, &Input{Mai: defaultMai, New: "NewTable", Steps: []Step{set("go.RawSet", I(1), I(1)), set("go.RawSet", I(2), I(2)), set("go.RawSet", I(3), I(3)),
+		{Op: "dumprm", How: "last", I: 1}}}, "corpus", nil, nil)
 	// traversal while clearing every visited field, then while overwriting
 	add("corpus", defaultMai, "NewTable",
 		set("go.RawSet", I(1), I(1)), set("go.RawSet", I(2), I(2)), set("go.RawSet", S("x"), I(3)), set("go.RawSet", tv.Obj(1), I(4)),
